@@ -1,4 +1,5 @@
 import Pk.Estimator
+import Pk.Estimators
 /-! # C15 — Fit depends only on parameters and data, never on history
 
 Theorems about the estimator history machine (`Pk/Estimator.lean`).  They are simple by design: the
@@ -112,5 +113,71 @@ theorem C15_stop_sticky_witness (w : World F) (d : D) (hw : w.stopFlag = false)
     (hFit : Fit w.params d true ≠ Fit w.params d false) :
     (run Fit Read w [.stop, .fit d]).fitted ≠ (run Fit Read w [.fit d]).fitted := by
   simp [run, step, hw, hFit]
+
+/-! ### several instances, data arrays overwritten in place (`Pk/Estimators.lean`) -/
+section proc
+variable {D F : Type} (Fit : Params → D → Bool → F)
+
+theorem pstep_insts_length_le (s : Proc D F) (op : POp D) : s.insts.length ≤ (pstep Fit s op).insts.length := by
+  cases op with
+  | fit a i =>
+    simp only [pstep]
+    cases s.heap[i]? <;> simp [modifyAt_length]
+  | setParam a k v => simp [pstep, modifyAt_length]
+  | overwrite i d => simp [pstep]
+  | create p => simp [pstep]
+  | clone a =>
+    simp only [pstep]
+    cases s.insts[a]? <;> simp
+
+/-- **instances are independent, over whole histories**: a history none of whose operations is addressed to instance
+`b` — fits and parameter changes of OTHER instances, constructions, clones, in-place overwrites of data arrays —
+leaves instance `b` (parameters and fitted state) exactly as it was -/
+theorem C15_instances_independent (s : Proc D F) (h : List (POp D)) (b : Nat) (hb : b < s.insts.length)
+    (hh : ∀ op ∈ h, op.target ≠ some b) :
+    (prun Fit s h).insts[b]? = s.insts[b]? := by
+  induction h generalizing s with
+  | nil => rfl
+  | cons op rest ih =>
+    simp only [prun]
+    rw [ih (pstep Fit s op) (Nat.lt_of_lt_of_le hb (pstep_insts_length_le Fit s op))
+      (fun o ho => hh o (by simp [ho]))]
+    exact pstep_other Fit s op b hb (hh op (by simp))
+
+/-- **a fit is a function of the current parameters and the current contents of the array**, after any history:
+no decomposition, statistic or centre set survives from an earlier fit, from an earlier content of the same array
+object, or from another instance -/
+theorem C15_fit_by_value (s : Proc D F) (h : List (POp D)) (a i : Nat) (w : World F) (d : D)
+    (ha : (prun Fit s h).insts[a]? = some w) (hi : (prun Fit s h).heap[i]? = some d) :
+    (prun Fit s (h ++ [.fit a i])).insts[a]? = some { w with fitted := some (Fit w.params d w.stopFlag) } := by
+  have happ : ∀ (s : Proc D F) (h1 h2 : List (POp D)), prun Fit s (h1 ++ h2) = prun Fit (prun Fit s h1) h2 := by
+    intro s h1 h2
+    induction h1 generalizing s with
+    | nil => rfl
+    | cons op rest ih => simp [prun, ih]
+  rw [happ]
+  simp only [prun]
+  exact pstep_fit Fit _ a i w d ha hi
+
+/-- overwriting a data array in place changes no estimator, and the array then holds the new contents -/
+theorem C15_overwrite (s : Proc D F) (i : Nat) (d : D) (hi : i < s.heap.length) :
+    (pstep Fit s (.overwrite i d)).insts = s.insts ∧ (pstep Fit s (.overwrite i d)).heap[i]? = some d :=
+  ⟨pstep_overwrite_insts Fit s i d, pstep_overwrite_heap Fit s i d hi⟩
+
+/-- a clone has the parameters of its origin and no fitted state -/
+theorem C15_clone_fresh (s : Proc D F) (a : Nat) (w : World F) (ha : s.insts[a]? = some w) :
+    (pstep Fit s (.clone a)).insts[s.insts.length]?
+      = some { params := w.params, fitted := none, stopFlag := w.stopFlag } :=
+  pstep_clone Fit s a w ha
+
+/-- non-vacuity: two instances, one array; instance 0 is fitted, the array is overwritten, instance 1 is fitted on
+it and instance 0 re-fitted: instance 0 holds the fit of the NEW contents, instance 1 likewise -/
+example :
+    let Fit : Params → Int → Bool → Int := fun p d _ => d + (getParam "k" p).getD 0
+    let s : Proc Int Int := { heap := [10], insts := [⟨[("k", 1)], none, false⟩, ⟨[("k", 2)], none, false⟩] }
+    ((prun Fit s [.fit 0 0, .overwrite 0 20, .fit 1 0, .fit 0 0]).insts.map (·.fitted)) = [some 21, some 22] := by
+  decide
+
+end proc
 
 end Pk.C15
